@@ -66,6 +66,12 @@ def run_fresh(chk: Check, tier: str, rnd: random.Random, work):
         for inp in inputs:
             oracle = []
             for sig, size in meta:
+                if isinstance(size, tuple):
+                    # a value for a ranged symbol: the bounds, their neighbours (outside = not admissible), 2^255 and around, random inside
+                    _, lo, hi = size
+                    cands = [lo, hi, (lo + hi) // 2, rnd.randint(lo, hi), rnd.randint(lo, hi), min(max(2**255, lo), hi), min(max(2**255 - 1, lo), hi), (lo - 1) % 2**256, (hi + 1) % 2**256]
+                    oracle.append(rnd.choice(cands).to_bytes(32, "big"))
+                    continue
                 nbytes = max(32, size or 0) if ("ytes(" in sig or "String(" in sig) else 32
                 k = rnd.random()
                 raw = bytes([255] * nbytes) if k < 0.2 else (bytes(nbytes) if k < 0.3 else rnd.randbytes(nbytes))
@@ -83,7 +89,7 @@ def run_fresh(chk: Check, tier: str, rnd: random.Random, work):
         if hr.exception:
             chk.violation(f"{prog.name}:exception", f"{prog.name}: exception escaped SEVM.run: {hr.exception}", {"program": prog.name})
             continue
-        if rec["status"] != "done":
+        if rec["status"] not in ("done", "discard"):
             raise MachineryError(f"{prog.name}: reference status {rec['status']}")
         syms = fresh_symbols(hr)
         env = {}
@@ -96,6 +102,14 @@ def run_fresh(chk: Check, tier: str, rnd: random.Random, work):
         info = {"program": prog.name, "code": prog.accounts[progs_cheats.TARGET].hex(), "oracle": [o.hex() for o in oracle], "fresh": prog.meta["fresh"],
                 "symbols": {k: v for k, v in syms.items()}, "unevaluable": m.unevaluable}
         live = [c for c in m.covering if not c.path.stuck]
+        if rec["status"] == "discard":
+            # the environment's value lies outside the requested range: no reported path may claim it
+            if live:
+                chk.violation(f"{prog.name}:range-not-restricting", f"{prog.name}: the value {info['oracle']} is outside the requested range but path {live[0].index} covers it", info)
+            else:
+                chk.count("traces_validated_against_impl")
+                chk.nontrivial((prog.name, tuple(o.hex() for o in oracle), "outside"))
+            continue
         if not live:
             if m.unevaluable or any(p.stuck for p in hr.paths):
                 chk.count("coverage_undecided")
